@@ -860,6 +860,87 @@ fn mutate(rng: &mut Rng, c: &Case) -> Case {
     c
 }
 
+/// "twin" stream: for segments of a (well-formed) set add a second version that agrees on everything
+/// `PathSegment::id()` hashes (ASes, hop-field interface ids) but differs elsewhere: peer entries
+/// prepended / dropped / re-ordered (so the same peering link sits at another index), timestamps,
+/// MACs, expiry, MTUs.  The graph must keep the versions apart (its edge maps are keyed by the whole
+/// segment); only the order among equal sort keys may depend on hash-map iteration.
+fn twins(rng: &mut Rng, c: &Case) -> Case {
+    let mut c = c.clone();
+    c.topo = None;
+    let pool: Vec<u64> = c.cores.iter().chain(c.noncores.iter()).flat_map(|s| s.ents.iter().map(|e| e.ia)).collect();
+    let mut tags = BTreeSet::new();
+    for core in [false, true] {
+        let n = if core { c.cores.len() } else { c.noncores.len() };
+        let mut add: Vec<(usize, MSeg, bool)> = vec![];
+        for i in 0..n {
+            let orig = if core { &c.cores[i] } else { &c.noncores[i] };
+            let has_peers = orig.ents.iter().any(|e| !e.peers.is_empty());
+            if !(has_peers || rng.chance(1, 4)) {
+                continue;
+            }
+            let mut t = orig.clone();
+            let mode = if has_peers { rng.below(6) } else { 4 + rng.below(2) };
+            for e in t.ents.iter_mut() {
+                match mode {
+                    0 => {
+                        // another peering link in front: every real link moves one index up
+                        let k = rng.range(1, 2);
+                        for j in 0..k {
+                            e.peers.insert(0, MPeer { peer: if pool.is_empty() { ia(9, 9) } else { *rng.pick(&pool) }, pif: 900 + j as u16, pmtu: 1300, hop: MHop { exp: 63, ing: 900 + j as u16, eg: e.hop.eg, mac: [7; 6] } });
+                        }
+                        tags.insert("peer-prepended");
+                    }
+                    1 => {
+                        if !e.peers.is_empty() {
+                            e.peers.remove(0);
+                        }
+                        tags.insert("peer-dropped");
+                    }
+                    2 => {
+                        e.peers.reverse();
+                        if e.peers.len() < 2 {
+                            e.peers.insert(0, MPeer { peer: ia(9, 8), pif: 901, pmtu: 1300, hop: MHop { exp: 63, ing: 901, eg: e.hop.eg, mac: [8; 6] } });
+                        }
+                        tags.insert("peers-reordered");
+                    }
+                    3 => {
+                        e.peers.clear();
+                        tags.insert("peers-removed");
+                    }
+                    4 => {
+                        e.mtu = *rng.pick(&[1200u32, 1300, 8000]);
+                        if e.imtu != 0 {
+                            e.imtu = *rng.pick(&[1200u16, 1290]);
+                        }
+                        for p in e.peers.iter_mut() {
+                            p.pmtu = 1210;
+                        }
+                        tags.insert("other-mtus");
+                    }
+                    _ => {
+                        e.hop.mac = rng.bytes(6).try_into().unwrap();
+                        e.hop.exp = e.hop.exp.wrapping_sub(1);
+                        tags.insert("other-time-macs");
+                    }
+                }
+            }
+            if mode >= 5 {
+                t.ts = t.ts.wrapping_add(600);
+                t.segid ^= 0x5a5a;
+            }
+            add.push((i, t, rng.chance(1, 2)));
+        }
+        // insert from the back so that indices stay valid; before or after the original
+        for (i, t, before) in add.into_iter().rev() {
+            let v = if core { &mut c.cores } else { &mut c.noncores };
+            v.insert(if before { i } else { i + 1 }, t);
+        }
+    }
+    c.kind = format!("twin:{}", tags.into_iter().collect::<Vec<_>>().join("+"));
+    c
+}
+
 fn soup(rng: &mut Rng) -> Case {
     let big = rng.chance(1, 3);
     let (n_seg, pool_n, max_ent) = if big { (rng.range(13, 40), rng.range(8, 14), 4) } else { (rng.range(0, 12), rng.range(2, 6), 6) };
@@ -1275,13 +1356,16 @@ fn main() {
         "case = (src, dst, core segments, non-core segments) given to the real combine() and to the Lean model; streams: \
          well-formed sets from random topologies and the repo's 20-AS test graph, structural mutations of those \
          (delete/duplicate/reorder entries, zero/alias ids, cross-wired/duplicated peers, >63 hops, single-AS / empty \
-         segments, out-of-range MTUs / times, re-beaconed copies, swapped kinds), random segment soup up to 40 segments. \
+         segments, out-of-range MTUs / times, re-beaconed copies, swapped kinds), 'twin' sets (a second version of a segment with the \
+         same hop interfaces = same PathSegment::id() but peer entries prepended/dropped/re-ordered, other MTUs, timestamps, MACs; \
+         built on sets that offer a peering path), random segment soup up to 40 segments. \
          Non-trivial = the search produced at least one candidate solution (model `cands` > 0) or the call panicked; \
          distinct by hash of the request line"
     } else {
         "case = (src, dst, core segments, non-core segments) of a well-formed set derived from a topology (random cores + \
          parent/child DAG + peering links, or the repo's 20-AS test graph; beacons built by extending along links), all \
-         src/dst pairs incl. on-segment and core endpoints, plus shuffled/duplicated variants. Non-trivial = at least one \
+         src/dst pairs incl. on-segment and core endpoints, plus shuffled/duplicated variants and 'twin' sets (second version of a \
+         segment with the same hop interfaces but other peer entries / MTUs / timestamps / MACs). Non-trivial = at least one \
          path offered; distinct by hash of the request line"
     };
     let mut rep = Report::new(&prop, rule);
@@ -1357,6 +1441,31 @@ fn main() {
                 valid.push(request(&t, &b, t.ases[i].ia, t.ases[j].ia, &mut rng, if k % 3 == 0 { "topo-small-all-pairs" } else { "topo-random" }));
             }
         }
+        // twins of sets that offer a peering path (plus some others)
+        {
+            let want = args.scale(160, 4000);
+            let mut made = 0;
+            let mut idx: Vec<usize> = (0..valid.len()).collect();
+            rng.shuffle(&mut idx);
+            for i in idx {
+                if made >= want {
+                    break;
+                }
+                let base = &valid[i];
+                let uses_peering = match run_impl(base) {
+                    Ok(o) => o.paths.iter().any(|p| p.segs.iter().any(|s| s.peer)),
+                    Err(_) => false,
+                };
+                if uses_peering || rng.chance(1, 12) {
+                    let t = twins(&mut rng, base);
+                    if uses_peering {
+                        rep.hit("twin cases built on a set offering a peering path");
+                    }
+                    cases.push(t);
+                    made += 1;
+                }
+            }
+        }
         if prop == "C19" {
             let n_mut = args.scale(1500, 60000);
             let n_soup = args.scale(500, 20000);
@@ -1387,6 +1496,11 @@ fn main() {
         rep.case(&line, nontrivial);
         rep.traces += 1;
         rep.hit(&format!("stream {}", c.kind.split(':').next().unwrap_or("")));
+        if let Some(m) = c.kind.strip_prefix("twin:") {
+            for t in m.split('+') {
+                rep.hit(&format!("twin {t}"));
+            }
+        }
         if let Some(m) = c.kind.strip_prefix("mut:") {
             for t in m.split('+') {
                 rep.hit(&format!("mutation {t}"));
